@@ -125,6 +125,7 @@ func main() {
 	repo := flag.String("repo", repoDir(), "tree to analyse")
 	only := flag.String("only", "", "restrict output to obligations whose key contains this string")
 	list := flag.Bool("list", false, "list registered properties")
+	dumpN := flag.Bool("dumpnames", false, "print names_frozen.go (canonical parameter and field names) for the tree")
 	selfOnly := flag.Bool("selftest", false, "run only the fixture self-test")
 	noSelf := flag.Bool("noselftest", false, "skip the fixture self-test")
 	flag.Parse()
@@ -158,6 +159,15 @@ func main() {
 	}
 	if *selfOnly {
 		os.Exit(runSelfTest())
+	}
+	if *dumpN {
+		w, err := Load(*repo, Config{})
+		if err != nil {
+			fmt.Fprintln(os.Stderr, err)
+			os.Exit(2)
+		}
+		dumpNames(w)
+		return
 	}
 	stop := startProf()
 	exit := 0
